@@ -194,7 +194,7 @@ def random_script(seed, proto="at4", n_ops=30, profile="mixed"):
     w = {
         "order":  dict(send=10, step=4, quiesce=3, ok=4, refuse=2, adv=3, good=1),
         "retry":  dict(send=8, step=4, quiesce=3, ok=4, refuse=2, adv=4, fault=5, reset=2, eof=1, good=1, stall=2, unstall=2),
-        "faults": dict(send=5, step=5, quiesce=3, ok=5, refuse=3, adv=3, fault=3, reset=3, eof=3, good=3,
+        "faults": dict(send=5, step=5, quiesce=3, ok=5, refuse=3, adv=3, fault=3, reset=3, eof=3, good=3, stall=2, unstall=2,
                        badcrc=2, bit=2, prefix=1, garbage=2, bad=2, unreg=1, apireset=2, cutfeed=2),
         "queue":  dict(send=14, step=2, quiesce=2, ok=1, refuse=2, adv=5, bad=1, okstall=1, unstall=1),
         "close":  dict(send=5, step=4, quiesce=2, ok=4, refuse=3, adv=3, fault=2, reset=2, eof=1, good=2,
@@ -382,6 +382,58 @@ def stalled_drain(seed, proto):
     b.heal()
     b.shutdown()
     return b.script, {"enc": b.enc, "blockers": [], "proto": proto, "profile": "stalled_drain", "seed": seed}
+
+
+def slow_close(seed, proto):
+    """Resets that overlap because the close of the old connection is slow: the console has stopped
+    reading, so the transport cannot finish closing until the stall ends.  First reset by damaged
+    input / peer EOF / API call, then a second trigger while the first still waits, connection
+    attempts answered promptly meanwhile, then the stall ends."""
+    rng = random.Random(seed)
+    b = Builder(proto, rng)
+    b.preamble(sending_sub=rng.random() < 0.3)
+    b.op(op="quiesce")
+    b.op(op="resolve", how="ok")
+    b.op(op="quiesce")
+    if rng.random() < 0.5:
+        b.send(POL_IDEM)
+        b.op(op="quiesce")
+    if rng.random() < 0.5:
+        b.op(op="pause")
+    else:
+        b.op(op="arm_pause", nth=1)
+        b.send(rng.choice(POLICIES))
+        b.op(op="step", k=rng.randrange(1, 3))
+    first = rng.choice(["crc", "garbage", "eof", "api"])
+    if first in ("crc", "garbage"):
+        b.feed(first)
+    elif first == "eof":
+        b.op(op="peer_eof")
+    else:
+        b.call("reset_connection")
+    b.op(op="step", k=rng.randrange(1, 4))
+    b.op(op="auto", how="ok")
+    for _ in range(rng.randrange(1, 3)):
+        second = rng.choice(["api", "send", "api", "close_open"])
+        if second == "api":
+            b.call("reset_connection")
+        elif second == "send":
+            b.send(rng.choice(POLICIES))
+        else:
+            b.call("close")
+            b.op(op="step", k=rng.randrange(0, 3))
+        b.op(op="step", k=rng.randrange(1, 5))
+        if rng.random() < 0.3:
+            b.op(op="advance", by=rng.choice([125, 2000, 2125]))
+    b.op(op="resume")
+    b.op(op="quiesce")
+    if second == "close_open":
+        b.call("open_socket")
+        b.op(op="quiesce")
+    b.op(op="auto", how="")
+    b.heal()
+    b.shutdown(k=rng.choice([None, 0, 2]))
+    return b.script, {"enc": b.enc, "blockers": [], "proto": proto, "profile": "slow_close", "seed": seed}
 
 
 def shutdown_at(seed, proto):
